@@ -13,8 +13,17 @@ package parsepath
 //@   sweep[C19] nil index slice div typeassert panic makeslice nilmap
 //@   ensures[C19] old(s.pos) <= s.pos && s.pos <= len(s.buf) && (old(s.pos) < len(s.buf) ==> s.pos > old(s.pos)) && result.Pos == start
 
+// Escape dispatch (rune_escape_seq): a simple escape yields the table's rune and consumes two bytes; a digit 0-7 starts
+// an octal escape of one to three digits (the digit itself is left to number()); u / U / x / X start hex escapes of
+// exactly 4 / exactly 8 / one or two digits; nothing else is an escape.
 //@ func (*scanner).escape
 //@   requires s != nil && 0 <= s.pos && s.pos < len(s.buf)
+// (the table is what init() builds - proved there - and is never written afterwards)
+//@   requires[assume] forall(k, uint8, has(escapes, k) == (k == 97 || k == 98 || k == 102 || k == 110 || k == 114 || k == 116 || k == 118 || k == 92 || k == 39 || k == 34 || k == 63))
+//@   ensures[C19] old(s.pos) + 1 >= len(s.buf) ==> !result.Valid
+//@   ensures[C19] old(s.pos) + 1 < len(s.buf) && has(escapes, bytesAt(s.buf, old(s.pos) + 1)) ==> result.Valid && result.Rune == escapes[bytesAt(s.buf, old(s.pos) + 1)] && s.pos == old(s.pos) + 2 && result.Pos == old(s.pos)
+//@   atcall number requires[C19] (48 <= bytesAt(p0.buf, p1 + 1) && bytesAt(p0.buf, p1 + 1) <= 55 && p2 == oct13Re && p3 == 8 && p0.pos == p1 + 1) || (bytesAt(p0.buf, p1 + 1) == 117 && p2 == hex4Re && p3 == 16 && p0.pos == p1 + 2) || (bytesAt(p0.buf, p1 + 1) == 85 && p2 == hex8Re && p3 == 16 && p0.pos == p1 + 2) || ((bytesAt(p0.buf, p1 + 1) == 120 || bytesAt(p0.buf, p1 + 1) == 88) && p2 == hex12Re && p3 == 16 && p0.pos == p1 + 2)
+//@   ensures[C19] old(s.pos) + 1 < len(s.buf) && !has(escapes, bytesAt(s.buf, old(s.pos) + 1)) && !(48 <= bytesAt(s.buf, old(s.pos) + 1) && bytesAt(s.buf, old(s.pos) + 1) <= 55) && bytesAt(s.buf, old(s.pos) + 1) != 117 && bytesAt(s.buf, old(s.pos) + 1) != 85 && bytesAt(s.buf, old(s.pos) + 1) != 120 && bytesAt(s.buf, old(s.pos) + 1) != 88 ==> !result.Valid
 //@   assigns s.pos
 //@   sweep[C19]
 //@   ensures[C19] old(s.pos) < s.pos && s.pos <= len(s.buf) && old(s.pos) <= result.Pos && result.Pos <= len(s.buf)
@@ -89,3 +98,9 @@ package parsepath
 //@   assigns nothing
 //@   sweep[C19]
 //@   ensures[C19] result1 == (keyKind == 9)
+
+// The simple escape table is exactly the documented one (simple_escape_seq): in particular no digit is a simple
+// escape, so that octal escapes reach the octal branch of escape().
+//@ func init
+//@   ensures[C19] forall(k, uint8, has(escapes, k) == (k == 97 || k == 98 || k == 102 || k == 110 || k == 114 || k == 116 || k == 118 || k == 92 || k == 39 || k == 34 || k == 63))
+//@   ensures[C19] escapes[97] == 7 && escapes[98] == 8 && escapes[102] == 12 && escapes[110] == 10 && escapes[114] == 13 && escapes[116] == 9 && escapes[118] == 11 && escapes[92] == 92 && escapes[39] == 39 && escapes[34] == 34 && escapes[63] == 63
